@@ -8,14 +8,12 @@
 -/
 import NemoVerif.Lemmas.GenLog
 import NemoVerif.Lemmas.PipelineOpts
+import NemoVerif.Lemmas.RailsInterp
 
 namespace NemoVerif.C16
 open NemoVerif NemoVerif.OptGuard NemoVerif.GenLog NemoVerif.PipelineOpts
 
-abbrev K : Consts :=
-  { ignoredActions := Generated.C16.ignoredActions, ignoredFlows := Generated.C16.ignoredFlows,
-    generationFlows := Generated.C16.generationFlows, relabelName := Generated.C16.relabelName,
-    relabelTask := Generated.C16.relabelTask }
+abbrev K : Consts := Kg
 
 /-! ## The pipeline with the guards of the current llm_flows.co -/
 
@@ -173,6 +171,25 @@ theorem log_lists_ran (cfg : Cfg) (hc : cfg.clean) (opts : Option Opts) (user : 
   obtain ⟨c, i, x, hm⟩ := mem_ioCalls _ _ _ (mem_markLast _ _ _ hk)
   exact hn c i k.name x hm
 
+/-- **`compute_generation_log` returns on every log a turn writes**: no `None` is dereferenced, whatever the
+    configuration, options, texts and dialog — provided each rail's own log entries are acceptable inside an open rail
+    (`Rail.accepted`: e.g. a step, then `StartInternalSystemAction x` … `InternalSystemActionFinished x`).  Proved through an
+    exact boolean abstraction of the two references the loop dereferences (`run_of_accepts`). -/
+theorem compute_returns_on_turn_logs (cfg : Cfg) (ha : cfg.accepted) (opts : Option Opts) (user : String) (bot : Option String)
+    (dlg : Dialog) (out : PipelineOpts.Out) (h : turn Gd cfg opts user bot dlg = some out) : ∃ gl, compute K out.log = .ok gl :=
+  turn_log_accepted cfg ha opts user bot dlg out h
+
+/-- `log_lists_ran` without the "compute returns" condition: the generation log of every turn exists and lists exactly
+    the input/output rails that ran, `stop` on the blocker only. -/
+theorem log_lists_ran_total (cfg : Cfg) (hc : cfg.clean) (ha : cfg.accepted) (opts : Option Opts) (user : String) (bot : Option String)
+    (dlg : Dialog) (out : PipelineOpts.Out) (h : turn Gd cfg opts user bot dlg = some out)
+    (hn : ∀ c i n x, Step.railCall c i n x ∈ out.trace → n ≠ K.relabelName) :
+    ∃ gl, compute K out.log = .ok gl ∧ ioKeys gl.rails = markLast out.blocker.isSome (ioCalls out.trace) := by
+  obtain ⟨gl, hg⟩ := compute_returns_on_turn_logs cfg ha opts user bot dlg out h
+  exact ⟨gl, hg, log_lists_ran cfg hc opts user bot dlg out h hn gl hg⟩
+
+example : exCfg.accepted := exCfg_accepted
+
 /-- non-vacuity of `log_lists_ran` (finite facts, by evaluation): for `exCfg`, options input+output and a bot message the
     output rail rejects, the hypotheses hold, `compute` returns, and the log reads: in0, in1 ran, out0 blocked. -/
 example : exCfg.clean := exCfg_clean
@@ -206,5 +223,61 @@ theorem stop_on_blocker_any_tables (K' : Consts) (L : List LogEv) (out : GenLog.
 theorem relabel_hides_an_input_rail :
     ∃ L out, compute K L = .ok out ∧ ioKeys out.rails ≠ stopSpec L :=
   ⟨[.startIn "generate user intent", .actStart "a", .llm "general", .actFin "a", .railFin], _, rfl, by decide⟩
+
+
+/-! ## Phase 2 — the Colang 1.0 interpreter running the GENERATED llm_flows.co refines `turn`
+
+  `RailsInterp.drive` is the loop of `generate_events` around `V1Interp.computeNextSteps` (C14's model of
+  `flows.py`/`sliding.py`) on `Generated.LlmFlowsV1.flows ++ rail sub-flows` — the compiled elements of the shipped
+  `llm_flows.co`, regenerated on every run — with scripted action results.
+
+  FULL STATEMENT (`pipeline_refines_interp`, not proved in this generality):
+      ∀ set-ups `s` (rail lists of any length, check / rewriting rails with arbitrary verdict functions), all option
+      subsets, texts:  `driveTrace s o user bot = turnTrace s o user bot`.
+  PROVED, unbounded: the hard part, the `while $i < len($input_flows)` loop of `run input rails`, for rail lists of ANY
+  length (`interp_input_rails_loop`, induction over the remaining rails with an invariant on the interpreter state), and that the
+  text it leaves is the documented chain (`loop_text_is_chain`).  PROVED, finite (kernel evaluation): the full statement
+  for a concrete set-up over all 17 option values × texts that pass / are blocked by an input rail / by an output rail
+  (`pipeline_refines_interp_partial`).  Entry into and exit from the loop, the refusal tail (extension flow
+  `generate bot message`, `bot stop`), the output loop and the dialog branch for arbitrary lengths rest on that finite
+  evaluation and on the end-to-end correspondence. -/
+
+open NemoVerif.V1Interp NemoVerif.RailsInterp in
+/-- **Loop discipline of the generated `run input rails`, for every number of rails** (symbolic execution of
+    `computeNextState` on the generated program; `rails` = any further sub-flows of the configuration): from the head of
+    the `while` loop at index `k` with `$user_message = um`, replaying the events `generate_events` appends while the
+    remaining rails `rs` let the message pass — per rail: marker `StartInputRail`, the rail sub-flow `$input_flows[$i]`
+    is called and asks for ITS action, the action's result (a `ContextUpdate` only if the value changed), `$i = $i + 1`
+    exactly once, marker `InputRailFinished` — leads to the exit state: `run input rails` completed,
+    `process user input` resumed at `create event InputRailsFinished`, `$i = len($input_flows)`, and `$user_message`,
+    `$allowed` = the fold of the rails over the text. -/
+theorem interp_input_rails_loop (rails : Cfgs) (hsub : ∀ r ∈ rails, r.isSubflow = true) (names : List String) (u0 u1 : Nat) (h01 : u0 < u1)
+    (rs : List IRail) (k : Nat) (u : Ctx) (um al : V) (es : List Event) (hrun : LoopRun rs k u um al es)
+    (hnames : names.drop k = rs.map (·.name)) (hok : ∀ r ∈ rs, RailOK rails r)
+    (σ : Ctx) (c : Nat) (h1c : u1 < c) (hF : Facts (σ.update u) k names um al) (rest : List Event) :
+    ∃ σ' c', Facts σ' names.length names (finalVals rs um al).1 (finalVals rs um al).2 ∧
+      replay true (RailsInterp.base ++ rails) (es ++ rest) (headState σ u c u0 u1)
+        = replay true (RailsInterp.base ++ rails) rest (exitState σ' c' u0 u1) :=
+  input_rails_loop rails hsub names u0 u1 h01 rs k u um al es hrun hnames hok σ c h1c hF rest
+
+open NemoVerif.V1Interp NemoVerif.RailsInterp in
+/-- the text the interpreter's loop leaves in `$user_message` is the text `turn`'s documented chain passes on -/
+theorem loop_text_is_chain (rs : List IRail) (t : String) (al : V) (h : AllPass rs (.str t)) :
+    chain (rs.map toRail) t = .passed (strOf (finalVals rs (.str t) al).1) :=
+  finalVals_is_chain rs t al h
+
+open NemoVerif.RailsInterp in
+/-- non-vacuity of `interp_input_rails_loop`'s run predicate: a two-rail run (finite fact) -/
+example : LoopRun exSetup.input 0 [] (.str "hi") .none
+    (iterEvents [] exSetup.input[0] (some (.bool true)) 0 .none .none ++ iterEvents [("triggered_input_rail", .str "in1")] exSetup.input[1] (some (.str "hi!")) 1 .none .none) :=
+  .cons _ _ [] 0 [] _ _ _ _ _ _ (by show ("hi" != "bad") = true; decide) rfl (.last _ 1 _ _ _ _ _ _ trivial rfl)
+
+open NemoVerif.RailsInterp in
+/-- **`pipeline_refines_interp`, finite part** (kernel evaluation, labelled as such): for the concrete set-up `exSetup`
+    (check + rewriting input rails, check output rail), all 16 option subsets and the call without options, user texts
+    that pass / are blocked, bot messages that pass / are blocked: the trace of the interpreter loop on the generated
+    llm_flows program (rail calls in order with the text each saw, LLM calls, utterance) equals the trace of `turn`. -/
+theorem pipeline_refines_interp_partial : refinesOn exSetup (casesFor ["hi", "bad"] ["evil", "fine"]) = true := by
+  decide +kernel
 
 end NemoVerif.C16
